@@ -185,8 +185,8 @@ The child's program is the sequence of its one-byte writes: `false` = to stdout,
 afterwards it exits (closing both pipe ends).  A write blocks while its pipe holds `K` bytes.
 The parent reads stdout (`read n`), may stop reading early (`close`: drops its end of stdout, after
 which the child's writes to stdout fail — it is killed by SIGPIPE or ignores the error and goes on),
-and, only with `async_stderr`, a helper thread drains stderr concurrently (`drain n`).  The scheduler
-is arbitrary. -/
+and, only with `async_stderr`, a helper thread drains stderr concurrently (`drain n`); without it stderr is
+read only after the child has been waited for (`drainAfterWait`).  The scheduler is arbitrary. -/
 
 structure PState where
   prog : List Bool
@@ -206,6 +206,11 @@ inductive Step (K : Nat) (async : Bool) : PState → PState → Prop where
   | close {prog out err} : Step K async ⟨prog, out, err, false⟩ ⟨prog, 0, err, true⟩
   | drain {prog out err closed} (n : Nat) : async = true → 0 < n → n ≤ err →
       Step K async ⟨prog, out, err, closed⟩ ⟨prog, out, err - n, closed⟩
+  /-- `StderrReader::Sync`: stderr is read only by `close`, and there only **after** `self.child.wait()` has
+  returned (`if self.child.wait()?.success() … else { let err = self.stderr.read_to_end(); … }`), i.e.
+  once the child has exited. -/
+  | drainAfterWait {out err closed} (n : Nat) : async = false → 0 < n → n ≤ err →
+      Step K async ⟨[], out, err, closed⟩ ⟨[], out, err - n, closed⟩
 
 /-- The reader is through: the child has exited (`wait()` returns) and stdout is at EOF or was closed. -/
 def Done (s : PState) : Prop := s.prog = [] ∧ (s.closed = true ∨ s.out = 0)
@@ -213,6 +218,9 @@ def Done (s : PState) : Prop := s.prog = [] ∧ (s.closed = true ∨ s.out = 0)
 inductive Reach (K : Nat) (async : Bool) : PState → PState → Prop where
   | refl (s) : Reach K async s s
   | step {s t u} : Reach K async s t → Step K async t u → Reach K async s u
+
+/-- stderr writes still to come -/
+def errOps (prog : List Bool) : Nat := prog.countP (· == true)
 
 /-- Progress measure: strictly decreases along every step. -/
 def measure (s : PState) : Nat := 2 * s.prog.length + s.out + s.err + (if s.closed then 0 else 1)
@@ -237,7 +245,7 @@ def stepFn (K : Nat) (async : Bool) (s : PState) : Choice → Option PState
     | _ => none
   | .read n => if !s.closed && 0 < n && n ≤ s.out then some ⟨s.prog, s.out - n, s.err, false⟩ else none
   | .close => if !s.closed then some ⟨s.prog, 0, s.err, true⟩ else none
-  | .drain n => if async && 0 < n && n ≤ s.err then some ⟨s.prog, s.out, s.err - n, s.closed⟩ else none
+  | .drain n => if (async || s.prog.isEmpty) && 0 < n && n ≤ s.err then some ⟨s.prog, s.out, s.err - n, s.closed⟩ else none
 
 def isDone (s : PState) : Bool := s.prog.isEmpty && (s.closed || s.out == 0)
 
